@@ -1,11 +1,16 @@
 """C04 - TCP request/response framing is lossless, exact and bounded (DESIGN.md section 4, C04)."""
+import time
+
 from vlib import common
 
 GO = dict(module="core", pkg="internal/protocol", pkgname="protocol",
           files={"zz_verif_c04_test.go": "c04/c04_test.go", "zz_verif_c04_conc_test.go": "c04/c04_conc_test.go"},
           run="TestVerifC04")
+# the end-to-end class runs in another package: the real server (http3 stream dispatcher, ProxyStreamHijacker, handleTCPRequest)
+GO_E2E = dict(module="core", pkg="internal/integration_tests", pkgname="integration_tests",
+              files={"zz_verif_c04e_test.go": "c04/c04_e2e_test.go"}, run="TestVerifC04E2E")
 PARAMS_NAME = "ParamsC04"
-HEADER = ("From Hy Require Import lib.Harness lib.Reader model.C04_Framing corr.C04_Corr.\n"
+HEADER = ("From Hy Require Import lib.Harness lib.Reader model.C04_Framing model.C04_Dispatch corr.C04_Corr.\n"
           "From Coq Require Import ZArith.\nLocal Open Scope N_scope.\n")
 RULE = ("seeded generator: ReadTCPRequest / server frame-type read + ReadTCPRequest / ReadTCPResponse on a scripted io.Reader "
         "(chunks, zero-length reads, data+error reads, EOF/other errors, trailing payload) that counts requested bytes; "
@@ -145,6 +150,53 @@ def rd(fn, segs, cuts, exp, g):
     return {"k": "rd", "fn": fn, "segs": segs, "cuts": cuts, "exp": exp, "g": g}
 
 
+NOP = {"cls": "nopanic", "val_seg": -1, "st": False, "consumed": 0}
+ERRCLS = {1: "eof", 2: "short", 3: "other"}
+
+
+def first_error(cuts, total):
+    """(stream offset behind the data of the first event that carries an error, its code, its data length)."""
+    pos = 0
+    for n, e in cuts:
+        n = max(0, min(n, total - pos))
+        pos += n
+        if e:
+            return pos, e, n
+    return None
+
+
+def expect(okexp, cuts, total):
+    """What the property demands of a WELL-FORMED frame (okexp = its read-back expectation) under a reader script
+    that may carry errors.  Every byte of the frame is handed over before, or together with, the first error:
+      - the error event lies behind the frame (or is a separate (0, err) read): the reader must not even see it;
+      - io.EOF arrives in the very Read that delivers the last byte(s) of the frame (n > 0, io.EOF: what a QUIC
+        stream does when the STREAM frame with the end of the data carries FIN): the frame is complete, it must
+        be read back identical and exactly the frame is consumed - same clause as for an error-free script;
+      - another error arrives together with the last byte(s): either the frame is read back identical, or exactly
+        that error is reported (class "okerr"); never another value, another error, a protocol error or a panic.
+    A frame cut short by the first error keeps the old expectation (no panic, limits)."""
+    fe = first_error(cuts, total)
+    if fe is None:
+        return okexp
+    pos, e, n = fe
+    cons = okexp["consumed"]
+    if pos < cons:
+        return dict(NOP)
+    if pos > cons or n == 0 or e == 1:
+        return okexp
+    return dict(okexp, cls="okerr", err=ERRCLS[e])
+
+
+def fin_cuts(rng, kind, end, bounds, code):
+    """A chunking of the first `end` bytes of the stream whose LAST read carries data + error `code` (1 = io.EOF:
+    FIN coalesced with the final bytes); what lies behind `end` (nothing, for the cases generated here) is one more chunk."""
+    cuts = chunking(rng, kind, end, [b for b in bounds if b < end])
+    covered = sum(n for n, _ in cuts)
+    while cuts and covered >= end:
+        covered -= cuts.pop()[0]
+    return cuts + [[end - covered, code]]
+
+
 def gen(rng, tier):
     scale = 1 if tier == "quick" else 14
     cases = []
@@ -184,6 +236,37 @@ def gen(rng, tier):
         P = rng.choice([0, 1, 64, 130])
         segs, bounds, exp = frame(rng, fn, L, rng.choice(widths(L)), P, rng.choice(widths(P)), rng.choice([0, 1, 100]))
         cases.append(rd(fn, segs, chunking(rng, "bytes", total_len(segs), bounds), exp, "valid-bytes"))
+    # --- (1b) well-formed frames whose FINAL read carries data + io.EOF (FIN right behind the frame / behind the
+    # trailing payload), every legal width, every chunking kind, paddings around the scratch sizes a reader may use
+    # (0: the EOF comes with the last byte of the padding-length varint; 1; 63/64; 511/512/513; 4095/4096), plus
+    # (n > 0, other error) variants
+    PADF = [0, 1, 63, 64, 511, 512, 513, 1024, 4095, 4096]
+    FKINDS = ["whole", "bytes", "bounds", "rand", "zero"]
+    def valid_fin(fn, L, wl, P, wp, kind=None, code=None, trail=None):
+        kind = kind or rng.choice(FKINDS)
+        if kind == "bytes" and L + P > 1100:
+            kind = rng.choice(["whole", "bounds", "rand", "zero"])
+        trail = rng.choice([0, 0, 0, 1, 100]) if trail is None else trail
+        code = code or rng.choice([1, 1, 1, 1, 2, 3])
+        segs, bounds, exp = frame(rng, fn, L, wl, P, wp, trail)
+        T = total_len(segs)
+        cuts = fin_cuts(rng, kind, T, bounds, code)
+        cases.append(rd(fn, segs, cuts, expect(exp, cuts, T), "valid-fin"))
+    for rep in range(scale):
+        for fn in ("req", "srv", "resp"):
+            lw = [(L, wl) for L in LEN[fn] for wl in widths(L)]
+            for P in PADF:
+                for wp in widths(P):
+                    for (L, wl) in rng.sample(lw, 2):
+                        valid_fin(fn, L, wl, P, wp)
+                # FIN right behind the frame, delivered with the whole frame / byte-wise / with the last field only
+                L, wl = rng.choice(lw)
+                valid_fin(fn, L, wl, P, rng.choice(widths(P)), kind="whole", code=1, trail=0)
+                Lb = rng.choice([1, 5, 64]) if fn != "resp" else rng.choice([0, 5, 64])
+                valid_fin(fn, Lb, rng.choice(widths(Lb)), P, rng.choice(widths(P)), kind="bytes", code=1, trail=0)
+                valid_fin(fn, L, wl, P, rng.choice(widths(P)), kind="bounds", code=1, trail=0)
+            for (L, wl) in lw:
+                valid_fin(fn, L, wl, 0, rng.choice(widths(0)), trail=0)
     # --- (2) every 2-split (and every 2-split with a zero read in between) of short frames
     for fn in ("req", "srv", "resp"):
         for (L, P) in ((1, 0), (3, 2), (0, 1) if fn == "resp" else (2, 1)):
@@ -246,16 +329,20 @@ def gen(rng, tier):
                 segs, bounds, exp = frame(rng, fn, L, wl, P, wp, rng.choice([0, 2]))
                 stream = b"".join(seg_bytes(s) for s in segs)
                 nop = {"cls": "nopanic", "val_seg": -1, "st": False, "consumed": 0}
+                T = len(stream)
+                def erd(cuts, g):
+                    # the verdict knows whether the frame was complete when the error came (expect)
+                    cases.append(rd(fn, segs, cuts, expect(exp, cuts, T), g))
                 for p in range(0, len(stream) + 1):
                     cases.append(rd(fn, [lit(stream[:p])], [], nop, "trunc"))          # script ends: EOF forever
                     for e in (1, 2, 3):
                         if rng.random() < 0.6:
-                            cases.append(rd(fn, segs, [[p, e]], nop, "err-with-data"))    # (n>0, err) in one Read
+                            erd([[p, e]], "err-with-data")                              # (n>0, err) in one Read
                         if rng.random() < 0.6:
-                            cases.append(rd(fn, segs, [[p, 0], [0, e]], nop, "err-after"))  # (0, err)
+                            erd([[p, 0], [0, e]], "err-after")                          # (0, err)
                     if rng.random() < 0.5:
                         q = rng.randrange(0, p + 1)
-                        cases.append(rd(fn, segs, [[q, 0], [0, 0], [p - q, rng.choice([1, 3])]], nop, "err-with-data"))
+                        erd([[q, 0], [0, 0], [p - q, rng.choice([1, 3])]], "err-with-data")
     # long frames cut short by EOF / error inside the value or the padding
     for _ in range(30 * scale):
         fn = rng.choice(["req", "srv", "resp"])
@@ -263,12 +350,12 @@ def gen(rng, tier):
         P = rng.choice([64, 300, 4096])
         segs, bounds, exp = frame(rng, fn, L, rng.choice(widths(L)), P, rng.choice(widths(P)), 0)
         T = total_len(segs)
-        p = rng.choice([b + d for b in bounds for d in (-1, 0, 1)] + [rng.randrange(T), rng.randrange(T)])
+        p = rng.choice([b + d for b in bounds for d in (-1, 0, 1)] + [rng.randrange(T), rng.randrange(T), T, T])
         p = min(max(p, 0), T)
         e = rng.choice([1, 2, 3])
         nop = {"cls": "nopanic", "val_seg": -1, "st": False, "consumed": 0}
         cuts = rng.choice([[[p, e]], [[p, 0], [0, e]], [[max(0, p - 7), 0], [7 if p >= 7 else p, e]]])
-        cases.append(rd(fn, segs, cuts, nop, "err-long"))
+        cases.append(rd(fn, segs, cuts, expect(exp, cuts, T), "err-long"))
     # --- (5) garbage
     for _ in range(150 * scale):
         fn = rng.choice(["req", "srv", "resp"])
@@ -288,7 +375,13 @@ def gen(rng, tier):
                         cases.append({"k": "wr", "fn": fn, "ok": ok, "a": rng.randrange(256), "b": rng.randrange(256), "n": n,
                                       "trail": rng.choice([0, 1, 100]), "cs": rng.choice([0, 1, 2, 3, 7, 64, 700]) if n < 300 else rng.choice([0, 5, 63, 700]),
                                       "zero": rng.choice([0, 1, 2, 5])})
+                        if rng.random() < 0.5:
+                            # the written frame is re-read through a reader whose last Read carries data + io.EOF
+                            cases[-1]["fin"] = 1
+                            if rng.random() < 0.5:
+                                cases[-1]["trail"] = 0
     cases += gen_conc(rng, scale)
+    cases += gen_e2e(rng, tier)
     # --- (7) varintPut at the width boundaries, buffers of every small length
     for v in (0, 1, 63, 64, 255, 16383, 16384, 2**30 - 1, 2**30, 2**32, MAXV, MAXV + 1, 2**63, 2**64 - 1):
         for bl in (0, 1, 2, 3, 4, 5, 7, 8, 9):
@@ -297,6 +390,104 @@ def gen(rng, tier):
         v = rng.choice([rng.randrange(2**6), rng.randrange(2**14), rng.randrange(2**30), rng.randrange(2**62), rng.randrange(2**64)])
         cases.append({"k": "vp", "v": str(v), "bl": rng.choice([minw(min(v, MAXV)), 8, 9, 12])})
     return cases
+
+
+FT_TCP = 0x401   # protocol.FrameTypeTCPRequest (compared with the regenerated ParamsC04 in the Coq cases)
+
+
+def e2e_stream(rng, ftw, wl, wp, L, P, trail, mode, ft=FT_TCP):
+    """One well-formed request as a peer may send it: frame type on ftw bytes, lengths on wl / wp bytes."""
+    segs = [vi(ftw, ft), vi(wl, L), gen_seg(rng, L), vi(wp, P)]
+    if P > 0:
+        segs.append(gen_seg(rng, P))
+    consumed = total_len(segs)
+    if trail > 0:
+        segs.append(gen_seg(rng, trail))
+    return {"segs": segs, "expect": "dial", "addr_seg": 2, "consumed": consumed, "mode": mode, "ft_w": ftw,
+            "wcuts": [], "sleep_ms": 0, "fin": False}
+
+
+def e2e_delivery(rng, st):
+    """How the client hands the stream to QUIC: one Write, or several with pauses (frame type alone / byte-wise /
+    cut inside a field / payload separately), so that the dispatcher's Peek works on partial data."""
+    T = total_len(st["segs"])
+    ftw = st["ft_w"]
+    kind = rng.choice(["whole", "whole", "type-first", "type-bytes", "inside-type", "rand", "payload-sep", "bytes-head"])
+    cuts = []
+    if kind == "type-first":
+        cuts = [ftw]
+    elif kind == "type-bytes":
+        cuts = list(range(1, ftw + 1))
+    elif kind == "inside-type":
+        cuts = [rng.randrange(1, ftw)]
+    elif kind == "rand":
+        cuts = sorted(set(rng.randrange(1, max(2, T)) for _ in range(rng.choice([1, 2, 3]))))
+    elif kind == "payload-sep":
+        cuts = [st.get("consumed", T)]
+    elif kind == "bytes-head":
+        cuts = list(range(1, min(T, ftw + 12)))
+    st["wcuts"] = [c for c in cuts if 0 < c < T]
+    st["sleep_ms"] = rng.choice([1, 2, 5]) if st["wcuts"] else 0
+    st["deliv"] = kind
+    return st
+
+
+def gen_e2e(rng, tier):
+    """End-to-end connections: every stream = frame type 0x401 on 2/4/8 bytes x address length on every legal width x
+    padding length on every legal width (the quantification of C04_request_peer_widths plus the frame-type width),
+    boundary lengths, trailing payload, refused / accepted dial, delivery variants; rejected length fields behind a wide
+    frame type; a few streams with another frame type."""
+    nconn, per = (5, 14) if tier == "quick" else (30, 20)
+    combos = [(f, a, p) for f in (2, 4, 8) for a in (1, 2, 4, 8) for p in (1, 2, 4, 8)]
+    rng.shuffle(combos)
+    ci = 0
+    LFIT = {1: [1, 5, 14, 63], 2: [1, 14, 64, 200, 2047, 2048], 4: [1, 14, 64, 2048], 8: [1, 14, 63, 64, 2047, 2048]}
+    PFIT = {1: [0, 1, 63], 2: [0, 1, 64, 500, 4095, 4096], 4: [0, 64, 513, 4096], 8: [0, 1, 63, 64, 4095, 4096]}
+    out = []
+    for cn in range(nconn):
+        streams = []
+        for sn in range(per):
+            r = rng.random()
+            if r < 0.72 or sn == 0:
+                ftw, wl, wp = combos[ci % len(combos)]
+                ci += 1
+                L, P = rng.choice(LFIT[wl]), rng.choice(PFIT[wp])
+                trail = rng.choice([0, 1, 7, 100, 3000])
+                mode = "echo" if (trail > 0 and rng.random() < 0.7) else rng.choice(["refuse", "refuse", "echo"])
+                st = e2e_stream(rng, ftw, wl, wp, L, P, trail, mode)
+                if rng.random() < 0.2:
+                    st["fin"] = True   # the client closes its send side right behind the request (+ payload)
+                streams.append(e2e_delivery(rng, st))
+            elif r < 0.95:
+                # rejected length field behind a (mostly wide) frame type; fewer bytes than declared follow
+                ftw = rng.choice([2, 4, 4, 8, 8])
+                follow = rng.choice([0, 1, 50, 300])
+                if rng.random() < 0.65:
+                    v = rng.choice([0, 0, 2049, 2050, 16384, 2**20, 2**30, MAXV])
+                    w = rng.choice(widths(v))
+                    segs = [vi(ftw, FT_TCP), vi(w, v)]
+                    cons = ftw + w
+                else:
+                    L = rng.choice([1, 14, 64, 2048])
+                    wl = rng.choice(widths(L))
+                    v = rng.choice([4097, 4098, 16384, 2**30, MAXV])
+                    w = rng.choice(widths(v))
+                    segs = [vi(ftw, FT_TCP), vi(wl, L), gen_seg(rng, L), vi(w, v)]
+                    cons = ftw + wl + L + w
+                if follow:
+                    segs.append(gen_seg(rng, follow))
+                st = {"segs": segs, "expect": "reject", "addr_seg": -1, "consumed": cons, "mode": "refuse", "ft_w": ftw,
+                      "wcuts": [], "sleep_ms": 0, "fin": rng.random() < 0.3, "declared": str(v)}
+                streams.append(e2e_delivery(rng, st))
+            else:
+                # not a TCPRequest: an unknown (reserved) HTTP/3 frame type of length 0, then FIN: never dialled
+                ft = rng.choice([0x400, 0x402, 0x4001, 0x21 + 0x1f * rng.randrange(1, 50)])
+                ftw = rng.choice(widths(ft))
+                st = {"segs": [vi(ftw, ft), lit(b"\x00")], "expect": "other", "addr_seg": -1, "consumed": 0, "mode": "refuse",
+                      "ft_w": ftw, "wcuts": [], "sleep_ms": 0, "fin": True}
+                streams.append(st)
+        out.append({"k": "e2e", "g": "e2e", "streams": streams})
+    return out
 
 
 def gen_conc(rng, scale):
@@ -350,6 +541,10 @@ def gen_conc(rng, scale):
             extra = set(rng.randrange(1, max(2, T)) for _ in range(rng.choice([0, 0, 1, 3])))
             ps = sorted(p for p in (gatepos | extra) if 0 < p < T)
             cuts = cuts_from_positions(ps, T)
+            if exp["cls"] == "ok" and rng.random() < 0.3:
+                # the stream ends with FIN coalesced into its last read (data + io.EOF): still a complete frame
+                cuts = cuts + [[T - (ps[-1] if ps else 0), 1]]
+                exp = expect(exp, cuts, T)
             gates = [j + 1 for j, p in enumerate(ps) if p in gatepos]
             if rng.random() < 0.15:
                 gates.append(0)                  # parked before its first byte
@@ -403,6 +598,19 @@ def obs_term(o):
 
 def to_coq(c, o):
     k = c["k"]
+    if k == "e2e":
+        so_all = o.get("streams") or []
+        if o.get("skip") or len(so_all) != len(c["streams"]):
+            return None
+        ts = []
+        for st, so in zip(c["streams"], so_all):
+            if so.get("skip"):
+                continue     # infrastructure trouble / not run: nothing observed
+            segs = "[" + ";".join(seg_term(x) for x in st["segs"]) + "]"
+            ts.append("(mkES %s %s %d %d)" % (segs, "true" if so.get("dialed") else "false", so.get("alen", 0), so.get("adg", 0)))
+        if not ts:
+            return None
+        return "CE2E [%s]" % ";".join(ts)
     if k == "conc":
         if len(o.get("streams") or []) != len(c["streams"]):
             return None
@@ -434,6 +642,8 @@ def to_coq(c, o):
 
 def klass(c, o):
     k = c["k"]
+    if k == "e2e":
+        return "e2e:" + ("skipped" if o.get("skip") else "run")
     if k == "conc":
         return "conc:K=%d:%s" % (len(c["streams"]), c["g"])
     if k == "rd":
@@ -445,13 +655,15 @@ def klass(c, o):
 
 def nontrivial(c, o):
     k = c["k"]
+    if k == "e2e":
+        return not o.get("skip") and any(so.get("dialed") for so in (o.get("streams") or []))
     if k == "conc":
         return any(s["gates"] for s in c["streams"])
     if k == "rd":
         e = c["exp"]["cls"]
         if e == "invalid":
             return True
-        if e == "ok":
+        if e in ("ok", "okerr"):
             return bool(c["cuts"]) or any(s["t"] == "vi" and s["w"] != minw(int(s["v"])) for s in c["segs"]) or \
                 total_len(c["segs"]) > c["exp"]["consumed"]
         return o.get("cls") not in ("ok", None)
@@ -465,7 +677,8 @@ def fingerprint(c, o):
 
 
 def search(ctx, disagreeing):
-    """Property-directed search on the implementation alone (no model): more seeds."""
+    """Property-directed search on the implementation alone (no model): more seeds (all classes, the end-to-end one
+    included: run() routes common.run_go_cases through run_split while the check runs)."""
     import random
     found = []
     for s in range(3):
@@ -479,6 +692,62 @@ def search(ctx, disagreeing):
         if found:
             break
     return found
+
+
+def run_split(ctx, orig):
+    """common.run_go_cases with the cases routed to two Go packages: scripted-reader / writer / concurrency cases to
+    core/internal/protocol, end-to-end connections to core/internal/integration_tests (real server); both at the same
+    time, outputs merged back in case order.  Returns (dispatcher, stats)."""
+    import threading
+    stats = {"conns": 0, "conns_skipped": 0, "streams": 0, "streams_skipped": 0, "runs": 0}
+
+    def both(ctx_, gospec, cases, tag="main", timeout=900, race=False):
+        if gospec is not GO:
+            return orig(ctx_, gospec, cases, tag=tag, timeout=timeout, race=race)
+        ia = [i for i, c in enumerate(cases) if c.get("k") != "e2e"]
+        ib = [i for i, c in enumerate(cases) if c.get("k") == "e2e"]
+        if not ib:
+            return orig(ctx_, GO, cases, tag=tag, timeout=timeout, race=race)
+        res = {}
+
+        def run_e2e():
+            t0 = time.time()
+            res["r"] = orig(ctx_, GO_E2E, [cases[i] for i in ib], tag=tag + "_e2e", timeout=min(timeout, 600), race=race)
+            res["t"] = time.time() - t0
+
+        th = threading.Thread(target=run_e2e)
+        th.start()
+        ok1, o1, params, log1 = (True, [], None, "")
+        if ia:
+            ok1, o1, params, log1 = orig(ctx_, GO, [cases[i] for i in ia], tag=tag, timeout=timeout, race=race)
+        th.join()
+        ok2, o2, _, log2 = res.get("r", (False, [], None, "end-to-end harness did not run"))
+        if len(o1) != len(ia):
+            return False, [], params, log1 + log2
+        if len(o2) != len(ib):
+            # the end-to-end package did not build / finish: reported as a broken tie (ok2 False); keep the other outputs
+            ok2 = False
+            o2 = list(o2) + [{"k": "e2e", "ok": True, "why": "", "skip": "end-to-end harness did not finish"}] * (len(ib) - len(o2))
+            log2 = "end-to-end harness (core/internal/integration_tests) failed:\n" + log2
+        outs = [None] * len(cases)
+        for i, o in zip(ia, o1):
+            outs[i] = o
+        for i, o in zip(ib, o2):
+            outs[i] = o
+        ns = sum(len(cases[i]["streams"]) for i in ib)
+        nss = sum(len(cases[i]["streams"]) if o.get("skip") else int(o.get("nskip", 0)) for i, o in zip(ib, o2))
+        ncs = sum(1 for o in o2 if o.get("skip"))
+        stats["runs"] += 1
+        stats["conns"] += len(ib); stats["conns_skipped"] += ncs; stats["streams"] += ns; stats["streams_skipped"] += nss
+        ctx_.say("end-to-end class (%s): %d connections, %d streams through the real server in %.1fs; skipped for infrastructure reasons: %d connections, %d streams%s" % (
+            tag, len(ib), ns, res.get("t", 0.0), ncs, nss,
+            (" (first: %s)" % next((o.get("skip") for o in o2 if o.get("skip")), None)) if ncs else ""))
+        if ncs == len(ib):
+            ctx_.say("end-to-end class (%s): EVERY connection was skipped - this run has validated NOTHING of the real server path "
+                     "(dispatcher / ProxyStreamHijacker / handleTCPRequest); only the scripted-reader classes and the theorems count" % tag)
+        return ok1 and ok2, outs, params, log1 + log2
+
+    return both, stats
 
 
 def eval_cases_linear(ctx, prefix, header, terms, per_shard=250, timeout=900):
@@ -522,16 +791,25 @@ def run(ctx):
             extra.append({"what": "concurrency harness fails under -race: " + rlog.strip()[-600:],
                           "replay": {"broken": "race", "log": rlog[-4000:]}, "found_input": False, "fingerprint": None})
 
+    orig_run = common.run_go_cases
+    both, e2e_stats = run_split(ctx, orig_run)
+
     def finish_more(ctx_, pinfo, cov, violations, *a, **kw):
+        cov = dict(cov)
+        cov["end_to_end"] = dict(e2e_stats, validated=(e2e_stats["conns"] > e2e_stats["conns_skipped"]),
+                                 note="connections/streams driven through the real http3 dispatcher + ProxyStreamHijacker + handleTCPRequest over loopback QUIC; "
+                                      "skipped = infrastructure trouble (never a verdict); validated=false means the class did not count for this run")
         return orig_finish(ctx_, pinfo, cov, list(violations) + extra, *a, **kw)
 
     common.eval_cases = eval_cases_linear   # only the layout of the generated cases files differs
     common.finish = finish_more
+    common.run_go_cases = both
     try:
         return common.run_case_check(ctx, sys.modules[__name__])
     finally:
         common.eval_cases = orig_eval
         common.finish = orig_finish
+        common.run_go_cases = orig_run
 
 
 def replay(ctx, path):
@@ -541,7 +819,7 @@ def replay(ctx, path):
     if not c:
         print("replay file names a broken obligation/correspondence, no concrete input:", r["what"])
         return 1
-    ok, outs, _, log = common.run_go_cases(ctx, GO, [c], tag="replay")
+    ok, outs, _, log = common.run_go_cases(ctx, GO_E2E if c.get("k") == "e2e" else GO, [c], tag="replay")
     print(json.dumps(outs, indent=1))
     return 0 if outs and outs[0].get("ok") else 1
 
